@@ -575,5 +575,88 @@ Proof.
   apply run_enough. unfold measure, fuel_for, init, seq_nat. cbn [todo waiting fl isSome length]. rewrite seq_length. lia.
 Qed.
 
+
+(* ------------------------------------------------------------------ the cache's answers change nothing *)
+Notation cstate := (cstate V).
+Notation cstep := (@cstep V nm).
+Notation crun := (@crun V nm).
+
+Lemma feed_core : forall fx (c : cstate), core (feed fx c) = core c.
+Proof.
+  induction fx as [|[d] fx IH]; intros c; cbn [feed]; [reflexivity|].
+  destruct (canswers c) as [|a q]; rewrite IH; reflexivity.
+Qed.
+
+Lemma feed_offered : forall fx (c : cstate), offered (feed fx c) = offered c ++ map (fun '(Flush d) => d) fx.
+Proof.
+  induction fx as [|[d] fx IH]; intros c; cbn [feed map]; [rewrite app_nil_r; reflexivity|].
+  destruct (canswers c) as [|a q]; rewrite IH; cbn [offered]; rewrite <- app_assoc; reflexivity.
+Qed.
+
+Lemma cstep_core (c : cstate) t e : core (cstep c t e) = step (core c) t e.
+Proof. reflexivity. Qed.
+
+(* the flight model is the projection of the model with a cache: the run - hence every caller's
+   result and instant, the request log, the store (installed entry, handle, what later polls ask
+   for) - is the same whatever the cache answers *)
+Theorem crun_core : forall fuel (c : cstate), option_map (@core V) (crun fuel c) = run fuel (core c).
+Proof.
+  induction fuel as [|k IH]; intros c; cbn [Lookup.crun Lookup.run].
+  - destruct (earliest (candidates (core c))) as [[t e]|]; reflexivity.
+  - destruct (earliest (candidates (core c))) as [[t e]|]; [|reflexivity]. rewrite IH. reflexivity.
+Qed.
+
+Lemma cstep_offered (c1 c2 : cstate) t e : core c1 = core c2 -> offered c1 = offered c2 ->
+  offered (cstep c1 t e) = offered (cstep c2 t e).
+Proof.
+  intros Ec Eo. unfold Lookup.cstep. cbn [offered]. rewrite !feed_offered, Ec, Eo. reflexivity.
+Qed.
+
+Theorem crun_offered : forall fuel (c1 c2 : cstate), core c1 = core c2 -> offered c1 = offered c2 ->
+  option_map (@offered V) (crun fuel c1) = option_map (@offered V) (crun fuel c2).
+Proof.
+  induction fuel as [|k IH]; intros c1 c2 Ec Eo; cbn [Lookup.crun]; rewrite Ec.
+  - destruct (earliest (candidates (core c2))) as [[t e]|]; cbn [option_map]; congruence.
+  - destruct (earliest (candidates (core c2))) as [[t e]|]; [|cbn [option_map]; congruence].
+    apply IH; [rewrite !cstep_core, Ec; reflexivity|apply cstep_offered; assumption].
+Qed.
+
+Theorem flush_outcome_irrelevant callers scr wn st a1 a2 fuel :
+  option_map (@core V) (crun fuel (cinit callers scr wn st a1)) = option_map (@core V) (crun fuel (cinit callers scr wn st a2))
+  /\ option_map (@offered V) (crun fuel (cinit callers scr wn st a1)) = option_map (@offered V) (crun fuel (cinit callers scr wn st a2)).
+Proof. split; [rewrite !crun_core; reflexivity|apply crun_offered; reflexivity]. Qed.
+
+(* what lands in the cache is a sub-sequence of what was offered, chosen by the cache alone *)
+Lemma feed_landed_incl : forall fx (c : cstate) d, In d (landed (feed fx c)) -> In d (landed c) \/ In (Flush d) fx.
+Proof.
+  induction fx as [|[d0] fx IH]; intros c d H; cbn [feed] in H; [auto|].
+  destruct (canswers c) as [|a q]; apply IH in H; cbn [landed] in H.
+  - destruct H as [H|H]; [|right; right; exact H]. apply in_app_or in H. destruct H as [H|[<-|[]]]; [auto|right; left; reflexivity].
+  - destruct H as [H|H]; [|right; right; exact H]. destruct a; [|auto].
+    apply in_app_or in H. destruct H as [H|[<-|[]]]; [auto|right; left; reflexivity].
+Qed.
+
+(* the converse half of "a failed lookup installs nothing": a step of the flight model either leaves
+   the store exactly as it was, or every result it hands out is a handle.  So every caller that is
+   told an error (the service's, or its own context's) leaves the store untouched - and by
+   crun_core this holds whatever the cache did.  A step that offers nothing to the cache is in
+   particular every step that reports an error. *)
+Theorem error_leaves_store (s : lstate) t e :
+  (lst (step s t e) = lst s /\ flushes_of nm s t e = [])
+  \/ (forall d, In d (done (step s t e)) -> In d (done s) \/ snd (fst d) = RHandle).
+Proof.
+  destruct e as [i| |i]; cbn [Lookup.step flushes_of].
+  - destruct (known (lst s) nm).
+    + right. intros d H. cbn [done] in H. apply in_app_or in H. destruct H as [H|[<-|[]]]; auto.
+    + left. destruct (fl s); [|destruct (next_script s)]; cbn [lst]; destruct (fl s); auto.
+  - destruct (fl s) as [f|]; [|left; auto]. destruct (fscript f).
+    + right. intros d0 H. cbn [done] in H. apply in_app_or in H. destruct H as [H|H]; [auto|].
+      apply in_map_iff in H. destruct H as (i & <- & _). right. reflexivity.
+    + left. auto.
+    + left. auto.
+  - left. destruct (fl s) as [f|]; [|auto]. destruct (Nat.eqb (fowner f) i); [|auto].
+    destruct (remove_nat i (waiting s)); [auto|]. destruct (wins s); destruct (next_script s); auto.
+Qed.
+
 End FlightProofs.
 
